@@ -100,6 +100,10 @@ func checkC14(c *Ctx) {
 	}
 	st := bidx(c, "B-IDX", fs, nil)
 	c.Notes = append(c.Notes, fmt.Sprintf("B-IDX: %d sites, %d compiler, %d LinBounds, %d unproven", st.sites, st.compiler, st.lin, st.unproved))
+	// ASN.1 ciphertext marshal / unmarshal (same rule as under C02)
+	asn1Rule = "T-CODEC-asn1"
+	c02ASN1(c)
+	asn1Rule = "K-C02-asn1"
 }
 
 func c14Hex(c *Ctx) {
